@@ -65,6 +65,13 @@ CLAIMED = {
         'The stand-in found four genuine defects on the pinned tree (array[N], empty string, message-like string argument, greedy queue tag), each repaired by its own fix: commit.',
    note='Bounded, not proved: 4000 generated lines per quick run, 60000 per thorough run. `new id T@nil`, discarded lines and locale commas in the current dialect are outside the generator. The positions at which argument_list_strs cuts are only checked through the bounded comparison. Timestamps (ms -> s) are not compared (C16 fixes the time base).',
    technique='contract-based deductive verification of the two string loops; bounded native contract evaluation (reference renderer of wl_closure_print) for the regular-expression decoder'),
+ 'C17': dict(level='other', design='6.C17',
+   text='Proved: core.util.color returns its text unchanged when colour is off (so nothing that goes through it adds an escape sequence) and wraps it in exactly one SGR sequence and one reset when on. '
+        'The property itself is relational - the same run with colour on and off over every string builder of the tool - and cannot be expressed as a contract over one call in this verifier; it is covered by a bounded stand-in only: '
+        'generated sessions (history + list / filter / breakpoint / matcher / connection / help commands) are run twice and the de-coloured output compared with the plain output, no escape may appear with colour off, '
+        'coloured output lines and coloured matcher renderings are typed back as commands / matchers and must behave like their uncoloured text; a syntactic scan on every run shows escape characters and the colour switch occur only inside util.color / no_color / set_color_output.',
+   note='Mostly bounded (12 sessions per quick run, 60 per thorough run), labelled so; one function under proof. Pass-through lines of the traced program that carry their own escapes are outside the claim.',
+   technique='contract-based deductive verification of util.color; bounded relational native runs + syntactic scan for the rest'),
  'C19': dict(level='proof', design='6.C19',
    text='_split_command (real nested loops, inner ones unrolled over the literal marker table): the split is at the first marker word (alias, or single-dash cluster ending in g/r), everything before is ours verbatim, everything after is forwarded verbatim and in order, no marker means no mode; '
         '_strip_dashes removes exactly the leading dashes; _select_mode returns a mode iff exactly one of run/gdb/load/pipe is selected (gdb-plugin aside) and None on conflict or none. '
